@@ -1,5 +1,10 @@
 //! Deterministic simulation harness for Peternator7/strum (see /verif/DESIGN.md).
 pub mod c05;
+pub mod c10;
+pub mod c11;
+pub mod c17;
+pub mod fmtsim;
 pub mod harness;
 pub mod json;
 pub mod rng;
+pub mod specs;
